@@ -46,7 +46,15 @@ pub fn collect_initial(snap: &Snap, w: &Walk, mvol: usize, out: &mut Vec<Initial
     }
     for (_, slots) in &w.dir_slots {
         let mut pending: Vec<usize> = Vec::new();
-        for s in Snap::live_slots(slots) {
+        for s in slots.iter() {
+            if s.is_end() {
+                break;
+            }
+            if s.is_deleted() {
+                // fragments in front of a deleted slot are orphans: they belong to nobody
+                pending.clear();
+                continue;
+            }
             if s.is_lfn() {
                 pending.push(out.len());
                 out.push(InitialObj { mvol, path: String::new(), is_dir: false, slot_blk: s.blk, slot_off: s.off, raw: s.raw, chain: vec![], content_hash: 0, opaque: true, owner: None });
@@ -287,6 +295,17 @@ fn write_rules(e: &mut Engine, op: &Op, res: &OpRes, vi: Option<usize>, pre: &Pr
         let path = if dpath.is_empty() { name } else { format!("{}/{}", dpath, name) };
         if let Some(x) = post_walk.nodes.iter().find(|x| x.path == path) {
             own.push((x.slot.blk, x.slot.off, 32));
+            // long-name fragments that sat orphaned in front of the slot taken are marked deleted
+            // with it (their first byte), or they would become the new entry's long name
+            if let Some(slots) = post_walk.dir_slots.get(&x.parent_dir) {
+                if let Some(pos) = slots.iter().position(|s| s.blk == x.slot.blk && s.off == x.slot.off) {
+                    let mut k = pos;
+                    while k > 0 && slots[k - 1].is_deleted() && slots[k - 1].raw[11] & 0x3F == 0x0F {
+                        k -= 1;
+                        own.push((slots[k].blk, slots[k].off, 1));
+                    }
+                }
+            }
         } else if !res.is_ok() {
             // failed creation may have left a slot behind; C03 judges the structure, C04 lets the
             // one slot the call was creating pass: look for it by name in the directory listing
@@ -745,7 +764,9 @@ pub fn medium_vs_model(e: &mut Engine, vi: usize, with_library: bool) {
                         None => false,
                     }
                 }
-                None => false,
+                // an orphan (no entry behind it): not part of any object; a create that takes the
+                // free slot behind it clears it, after which the slot is anybody's
+                None => (o.raw[11] & 0x3F) == 0x0F,
             };
             if cur != o.raw && !went_with_its_entry {
                 e.violate("C02", "C02.untouched-slot", "long-name or label slot", format!("slot at block {} offset {} (long-name fragment or label) changed", o.slot_blk, o.slot_off));
